@@ -137,12 +137,19 @@ func (ctx *context) ResolveAndCompile(pathname string, opts py.CompileOpts) (py.
 		stat, err := os.Stat(fpath)
 		if err == nil && stat.IsDir() {
 			// FIXME this is a massive simplification!
-			fpath = path.Join(fpath, "__init__.py")
-			_, err = os.Stat(fpath)
+			initPath := path.Join(fpath, "__init__.py")
+			_, err = os.Stat(initPath)
+			if !os.IsNotExist(err) {
+				fpath = initPath
+			}
+			// (a directory without __init__.py is not a package)
 		}
 
 		ext := strings.ToLower(filepath.Ext(fpath))
-		if ext == "" && os.IsNotExist(err) {
+		// A name without an extension which is not there, or is there
+		// but is neither a package nor something we can run - look for
+		// the source file of that name
+		if ext == "" && (err == nil || os.IsNotExist(err)) {
 			fpath += ".py"
 			ext = ".py"
 			_, err = os.Stat(fpath)
